@@ -1,8 +1,10 @@
 """C17 — XML helper round-trips (ncclient/xml_.py).
-Model: coq/Model/XTree.v, XmlHelpers.v; theorems: coq/Props/C17.v; harness: tools/harness/xmlgen.py."""
+Model: coq/Model/XTree.v, XmlHelpers.v, XmlHistory.v, XmlSession.v; theorems: coq/Props/C17.v;
+harness: tools/harness/xmlgen.py, xmlhist.py (snapshots), xmlsession.py (multi-program sessions)."""
 import re, json, os, sys, copy
 from harness import xmlgen as X
 from harness import xmlhist as H
+from harness import xmlsession as S
 
 ID = 'C17'
 COQ_ROOTS = ['Props/C17.v', 'GenProps/XmlHelpers_consts.v']
@@ -15,14 +17,21 @@ RULE = ('Generated documents (names incl. non-ASCII, default/prefixed/undeclared
         'to_xml (default/explicit encoding, pretty_print), to_ele, validated_element, parse_root, a fresh parse, NCElement '
         'views, constructor probes, replace_namespace / sub_ele / sub_ele_ns at random elements, always ending with to_xml of '
         'the whole tree; after every call a deep snapshot of the caller\'s tree (tag, prefix, nsmap, attributes, text, tail, '
-        'children, siblings of the root, docinfo) and of the argument objects is compared with the one before. '
+        'children, siblings of the root, docinfo) and of the argument objects is compared with the one before; SESSIONS: one '
+        'process builds 5-7 trees through the five constructors, one program after the other or interleaved, attributes omitted / '
+        'literal / a dictionary the caller keeps, passes again and updates itself / keyword arguments (incl. names that collide '
+        'with the mapping, non-identifier and namespaced names), attrs positional or by name, the last programs written without '
+        'any attribute; after every call the element made is compared with what the call specifies, every other tree and the '
+        'caller\'s dictionaries with what they were, the default arguments of every function of xml_ (by value) with those at '
+        'the start, and every tree is serialised and read back (to_ele, expat) against the tree ITS OWN program specifies. '
         'A case is one (kind, document/program, arguments); non-trivial = the tree has >= 2 elements or >= 1 attribute '
-        '(documents) / >= 2 operations (programs, histories).')
+        '(documents) / >= 2 operations (programs, histories, sessions).')
 ASSUMES = ['libxml2 parser/serialiser (lxml 6.1.3) are oracles of the model: the parser is represented by the event stream of the '
            'independent reader (expat) on the same octets, the serialiser by its output octets',
            'to_xml is exercised with the default encoding and with ISO-8859-1 on documents whose serialisation is ASCII '
            '(other encodings are outside the property: the function decodes the serialiser output as UTF-8)',
            'attribute dictionaries passed to constructors do not contain an un-namespaced attribute named xmlns',
+           'keyword attributes are never named like a parameter of the helpers or of lxml (tag, parent, ns, nsmap, attrs, attrib); a keyword wins over the same name in the mapping (ElementTree semantics)',
            'lxml binds a new element to an in-scope prefix if one names its namespace, else to the default declaration, else to a fresh prefix (bind_elem); validated by every program case']
 TRUSTED = ['modelled, not verified: libxml2 parsing/serialisation, lxml namespace binding, expat (independent reader)']
 
@@ -475,7 +484,149 @@ def run_history(case, o):
     o.hist['history: sub-element with a tail serialised before an ancestor'] = 'yes' if tail_then_ancestor else 'no'
 
 
+# ------------------------------------------------------------------ sessions: independent constructor programs in one process
+def pairs_val(pairs): return [[X._lx_name(k), B(v)] for k, v in pairs]
+
+def aarg_val(a):
+    if a is None: return []
+    return [0, a[1]] if a[0] == 'd' else [1, pairs_val(a[1])]
+
+def session_state(xml_, dicts, trees):
+    return [[pairs_val(S.ctor_default_attrs(xml_, c)) for c in S.CTORS], [pairs_val(list(d.items())) for d in dicts],
+            [X.m_strip(X.lx_mnode(r)) for r in trees]]
+
+def run_session(case, o):
+    """One process builds SEVERAL trees, one program after the other (or interleaved): attributes omitted, given as a
+    literal, as a dictionary the caller keeps and passes again (and updates itself in between), as keyword arguments.
+    After every call: the element made is the one that call specifies; every other tree, and everything in the
+    addressed tree beside the parent, is as it was; the dictionaries are what the caller wrote; the default arguments
+    of every function of the module are what they were.  Every tree serialises / reads back (to_ele and expat) as what
+    ITS OWN program specifies (S.SpecForest: computed from the calls alone)."""
+    from ncclient import xml_
+    dicts = [dict((k, v) for k, v in d) for d in case.get('dicts', [])]      # the caller's live dictionaries
+    shadow = [dict(d) for d in dicts]                                         # what the caller itself wrote into them
+    spec = S.SpecForest(case.get('dicts', []))
+    d0 = S.defaults_snapshot(xml_)
+    init = session_state(xml_, dicts, [])
+    trees, mops, trace = [], [], []
+    used = set()
+    def node(t, path):
+        n = trees[t]
+        for i in path: n = n[i]
+        return n
+    for si, st in enumerate(case['steps']):
+        k = st[0]
+        label = 'session step %d (%s)' % (si, k)
+        snaps = [H.snapshot(r) for r in trees]
+        if k == 'to_xml':
+            check_serialised(o, label + ' tree %d' % st[1], xml_.to_xml(trees[st[1]]), spec.xnode(st[1]))
+            if [H.snapshot(r) for r in trees] != snaps: o.fail(label + ': to_xml changed a tree of the caller')
+            continue
+        if k == 'dict_set':
+            dicts[st[1]][st[2]] = st[3]; shadow[st[1]][st[2]] = st[3]; spec.apply(st)
+            mops.append([5, st[1], X._lx_name(st[2]), B(st[3])]); trace.append(session_state(xml_, dicts, trees))
+            if [H.snapshot(r) for r in trees] != snaps:
+                o.fail(label + ': an assignment to the caller\'s dictionary changed a tree that was built from it earlier')
+            continue
+        aarg, kw = st[-2], st[-1]
+        lit = lit0 = None
+        if aarg is None: pos, named = (), {}
+        else:
+            if aarg[0] == 'd': val = dicts[aarg[1]]
+            else: lit = dict((a, v) for a, v in aarg[1]); lit0 = dict(lit); val = lit
+            pos, named = ((), {'attrs': val}) if aarg[2] else ((val,), {})
+        named.update(dict((a, v) for a, v in kw))
+        used.add(('omitted' if aarg is None else {'d': 'caller dictionary', 'l': 'literal'}[aarg[0]]) + ('+keywords' if kw else ''))
+        t = path = parent = None
+        if k == 'new_ele': args = (st[1],); mop = [0, B(st[1])]
+        elif k == 'new_ele_ns': args = (st[1], st[2]); mop = [1, B(st[1]), nsval(st[2])]
+        elif k == 'new_ele_nsmap': args = (st[1], {p: u for p, u in st[2]}); mop = [2, B(st[1]), [[1 if p else 0, B(u)] for p, u in st[2]]]
+        else:
+            t, path = st[1], list(st[2]); parent = node(t, path)
+            if k == 'sub_ele': args = (parent, st[3]); mop = [3, t, path, B(st[3])]
+            else: args = (parent, st[3], st[4]); mop = [4, t, path, B(st[3]), nsval(st[4])]
+        mops.append(mop + [aarg_val(aarg), pairs_val(kw)])
+        try: c = getattr(xml_, k)(*(args + pos), **named)
+        except Exception as ex:
+            o.fail(label + ': the constructor raised ' + exc_name(ex), expected='an element', actual=exc_name(ex)); return
+        want = spec.apply(st)
+        # --- what the call was given is as it was
+        dn = S.defaults_snapshot(xml_)
+        if dn != d0:
+            o.fail(label + ': the call changed the default arguments of a function of the module: ' + str(S.defaults_diff(d0, dn)),
+                   expected='defaults as before the call', actual=str(S.defaults_diff(d0, dn)))
+            d0 = dn
+        if dicts != shadow:
+            o.fail(label + ': a dictionary of the caller was modified', expected=repr(shadow), actual=repr(dicts))
+            shadow = [dict(d) for d in dicts]
+        if lit != lit0: o.fail(label + ': the attribute dictionary handed to the constructor was modified', expected=repr(lit0), actual=repr(lit))
+        # --- the element made is the one this call specifies
+        wname = [[B(want['ns'])] if want['ns'] else [], B(want['tag'])]
+        got = [X.lx_resolved(c)[1], dict(c.attrib), c.text, c.tail, len(c)]
+        if got != [wname, want['attrs'], None, None, 0]:
+            o.fail(label + ': the element made is not the one the call specifies (name, attributes, no text/tail/children)',
+                   expected=[wname, want['attrs'], None, None, 0], actual=got)
+        if parent is None:
+            if c.getparent() is not None: o.fail(label + ': a new root element has a parent')
+            trees.append(c)
+        elif c.getparent() is not parent or parent[-1] is not c:
+            o.fail(label + ': the new element is not the last child of the parent given')
+        # --- everything else is as it was
+        for i, b in enumerate(snaps):
+            a = H.snapshot(trees[i])
+            if i != t:
+                if a != b: o.fail(label + ': the call changed tree %d, which it was not given: %s' % (i, H.first_diff(b, a)),
+                                  expected='tree %d as before' % i, actual=str(H.first_diff(b, a)))
+                continue
+            fb, fa = H.mask(b, path), H.mask(a, path)
+            if fb != fa: o.fail(label + ': the call changed something beside the parent it was given: ' + str(H.first_diff(fb, fa)))
+            nb, na = H.node_at(b['root'], path), H.node_at(a['root'], path)
+            if na[:6] != nb[:6] or na[6][:-1] != nb[6]:
+                o.fail(label + ': the parent did not keep everything it had', expected=nb, actual=[na[:6], na[6][:-1]])
+        trace.append(session_state(xml_, dicts, trees))
+    for t in range(len(trees)):
+        check_serialised(o, 'session end, tree %d' % t, xml_.to_xml(trees[t]), spec.xnode(t))
+    sview = lambda v: [[s[0], s[1], [X.m_strip(m) for m in s[2]]] for s in v]
+    o.model([10, init[0], init[1], mops], trace, 'session: defaults, caller dictionaries and every tree after every call vs strace', post=sview)
+    o.hist['session: trees'] = str(len(trees)) if len(trees) < 8 else '8+'
+    for u in used: o.hist['session: attrs ' + u] = 'yes'
+
+
 def snap_node_of(n): return H.snap_node(n)
+
+
+def run_sequence(case, o):
+    """Cases run one after the other in ONE process (a failure that needs what earlier cases left behind in the
+    process is replayed together with them); the failures of the last one are the verdict."""
+    for i, c in enumerate(case['cases']):
+        sub = evaluate(c)
+        if i == len(case['cases']) - 1:
+            o.fails += [('[after %d earlier cases in the same process] %s' % (i, w), e, a, g) for w, e, a, g in sub.fails]
+
+
+def fails_alone(case, timeout=300):
+    """does the property oracle fail on this case in a fresh process?"""
+    import subprocess
+    tools = os.path.dirname(os.path.dirname(os.path.abspath(__file__)))
+    code = ('import sys, json; sys.path.insert(0, %r); from vlib import paths; import props.c17 as P; paths.use_repo(); '
+            'sys.setrecursionlimit(20000); sys.exit(1 if P.evaluate(json.load(sys.stdin)).fails else 0)' % tools)
+    try:
+        p = subprocess.run([sys.executable, '-c', code], input=json.dumps(case), text=True, capture_output=True, timeout=timeout)
+        return p.returncode == 1
+    except Exception:
+        return False
+
+
+def self_contained(jc, prior):
+    """the case itself if it fails in a fresh process; else the shortest run of its predecessors (lengths 1, 2, 4, ..)
+    after which it does, as one 'sequence' case; the case itself if nothing reproduces"""
+    if fails_alone(jc): return jc
+    n = 1
+    while True:
+        seq = {'kind': 'sequence', 'cases': prior[-n:] + [jc]}
+        if fails_alone(seq): return seq
+        if n >= len(prior): return jc
+        n *= 2
 
 
 def canon_m(m):
@@ -483,7 +634,7 @@ def canon_m(m):
     return [0, m[1], m[2], sorted(m[3]), [canon_m(k) for k in m[4]]]
 
 KINDS = {'doc': run_doc, 'subtail': run_subtail, 'validated': run_validated, 'replace': run_replace, 'program': run_program,
-         'history': run_history}
+         'history': run_history, 'session': run_session, 'sequence': run_sequence}
 
 def evaluate(case):
     o = Out()
@@ -710,6 +861,8 @@ def cases_for(ctx):
         out.append(gen_program(rng))
         if i % 2 == 0:
             out.append(gen_history(rng, src=body, exp=exp) if i % 8 else gen_history(rng, prog=gen_program(rng)))
+    for i in range(n // 2):
+        out.append(S.gen_session(rng))
     return out
 
 # hand-written cases that pin the known corners (run first, with the corpus)
@@ -722,6 +875,14 @@ PINNED = [
      'steps': [['to_xml', [0], None, False], ['replace', [0], 'urn:u', 'urn:v'], ['sub_ele_ns', [1], 'n', 'urn:w', [['a', '1']]], ['probe'], ['to_xml', [1], None, False], ['parse'], ['to_xml', [], None, False]]},
     {'kind': 'history', 'ops': [['new_ele_nsmap', 'hello', [[None, BASE]], None], ['sub_ele', [], 'capabilities', None]], 'decor': [[[0], 'tail', ' \n']],
      'steps': [['to_xml', [0], None, False], ['sub_ele', [0], 'capability', None], ['parse_root', [0]], ['to_xml', [], None, False]]},
+    {'kind': 'session', 'dicts': [[['a', '1']], []], 'steps': [
+        ['new_ele', 'rpc', None, [['message-id', '7']]], ['sub_ele', 0, [], 'get-config', None, [['operation', 'merge']]],
+        ['sub_ele_ns', 0, [], 'item', 'urn:two', ['d', 0, False], [['key', 'k1']]], ['sub_ele', 0, [1], 'leaf', ['d', 1, True], [['a', '2']]],
+        ['dict_set', 0, 'b', '2'], ['to_xml', 0],
+        ['new_ele_ns', 'rpc', 'urn:u', None, []], ['sub_ele', 1, [], 'close-session', None, []], ['sub_ele_ns', 1, [], 'plain', 'urn:two', None, []],
+        ['sub_ele', 1, [], 'x', ['d', 0, False], [['a', '9']]], ['sub_ele_ns', 1, [2], 'y', None, ['d', 1, False], []],
+        ['new_ele_nsmap', 'hello', [[None, BASE]], ['l', [['a', '1']], True], [['a', 'K'], ['{urn:u}q', '5']]], ['sub_ele', 2, [], 'capabilities', None, []],
+        ['new_ele', 'probe', None, []], ['new_ele_nsmap', 'probe', [], None, []], ['sub_ele_ns', 4, [], 'k', None, None, []]]},
     {'kind': 'subtail', 'src': '<a><b>x</b>tail<c/></a>', 'path': [0]},
     {'kind': 'replace', 'src': '<a xmlns:p="urn:u" p:x="1"><?pi z?><p:b/></a>', 'old': 'urn:u', 'new': 'urn:v'},
     {'kind': 'replace', 'src': '<a xmlns:p="urn:u" xmlns:q="urn:v" p:x="1" q:x="2"/>', 'old': 'urn:u', 'new': 'urn:v'},
@@ -735,7 +896,8 @@ PINNED = [
 
 def nontrivial(case):
     if case['kind'] == 'program': return len(case['ops']) >= 2
-    if case['kind'] == 'history': return len(case['steps']) >= 2
+    if case['kind'] in ('history', 'session'): return len(case['steps']) >= 2
+    if case['kind'] == 'sequence': return True
     return case['src'].count('<') >= 3 or '="' in case['src'] or "='" in case['src']
 
 def jsonable(c):
@@ -770,9 +932,19 @@ def run(ctx):
     cases += [dict(c) for c in PINNED]
     cases += cases_for(ctx)
     pending = []
+    prior, wrapped = [], False
     for case in cases:
         o = evaluate(case)
         jc = jsonable(case)
+        if o.fails and not wrapped:
+            # the replay must stand on its own: a failure that needs what earlier cases left behind in the process
+            # (default arguments, module state) is reported together with them
+            wrapped = True
+            rc = self_contained(jc, prior)
+            if rc is not jc:
+                for what, exp, act, sig in o.fails:
+                    ctx.fail(rc, '[after %d earlier cases in the same process] %s' % (len(rc['cases']) - 1, what), sig=sig, expected=exp, actual=act)
+        prior.append(jc)
         ctx.count(jc, nontrivial=nontrivial(case))
         ctx.hist('kind', case['kind'])
         for k, v in o.hist.items(): ctx.hist(k, v)
